@@ -29,7 +29,7 @@ func files() (string, string) {
 
 func (g *graph) setFlags() {
 	var of, nof, inf, ninf string
-	m := Palette[g.FlagType]
+	m := g.flagList()
 	switch g.Flag {
 	case "outputs-for":
 		of = m
